@@ -65,6 +65,11 @@ type Trace struct {
 	// what the run ended with when it was recorded
 	Violation *Violation `json:"violation,omitempty"`
 	Build     string     `json:"build,omitempty"` // "default" or "purego" (informational)
+	// Prelude: runs that were executed earlier in the same OS process. They
+	// are only kept in a replay file when the violation does not reproduce
+	// from a cold process, i.e. when it depends on package state left behind
+	// by earlier calls.
+	Prelude []*Trace `json:"prelude,omitempty"`
 	Note      string     `json:"note,omitempty"`
 }
 
